@@ -196,12 +196,20 @@ func Association[K comparable, V any](arguments ...any) col.AssociationLike[K, V
 	var notation = CDCN()
 	var key K
 	var value V
+	var hasKey bool
 
 	// Process the actual arguments.
 	for _, argument := range arguments {
 		switch actual := argument.(type) {
 		case K:
-			key = actual
+			// The key and value types may be identical so the first matching
+			// argument is the key and the next one is the value.
+			if !hasKey {
+				key = actual
+				hasKey = true
+			} else if second, ok := argument.(V); ok {
+				value = second
+			}
 		case V:
 			value = actual
 		default:
